@@ -301,6 +301,34 @@ func toStringListPermissive(v any) ([]string, error) {
 	return ret, nil
 }
 
+// cloneTree returns a structural copy of v: maps and lists are duplicated
+// recursively, scalars are shared. Unlike deepClone it preserves Go types
+// exactly (no YAML round trip).
+func cloneTree(v any) any {
+	switch v2 := v.(type) {
+	case map[string]any:
+		ret := make(map[string]any, len(v2))
+
+		for k, v3 := range v2 {
+			ret[k] = cloneTree(v3)
+		}
+
+		return ret
+
+	case []any:
+		ret := make([]any, len(v2))
+
+		for i, v3 := range v2 {
+			ret[i] = cloneTree(v3)
+		}
+
+		return ret
+
+	default:
+		return v
+	}
+}
+
 func deepClone(v any) (any, error) {
 	yml, err := yaml.Marshal(v)
 	if err != nil {
